@@ -70,6 +70,7 @@ struct Refs {
     d0_suffix: Facts,
     d0_x_suffix: Facts,
     steps: usize,
+    last_log_sync: Option<usize>,
 }
 
 fn open_and_prefix(cfg: &GenCfg, prefix: &[Op], dir: &ScratchDir) -> Option<Sut> {
@@ -140,6 +141,8 @@ pub fn run_case(seed: u64, k: usize, thorough: bool, only: Option<(usize, usize)
             rec.set_mode(Mode::FailAt { at: usize::MAX, short: 0 });
             let r = apply_x(&mut sut, &x);
             let steps = rec.steps();
+            // the commit point of X: its last log fsync (everything before it can still be undone)
+            let last_log_sync = rec.sites.lock().unwrap().iter().rposition(|(s, _)| *s == "wal.fsync");
             rec.set_mode(Mode::Off);
             if r.is_err() {
                 return None;
@@ -154,7 +157,7 @@ pub fn run_case(seed: u64, k: usize, thorough: bool, only: Option<(usize, usize)
             let sut2 = open_and_prefix(&cfg, prefix, &dir2)?;
             run_suffix(sut2.db(), tag).ok()?;
             let d0_suffix = full_dump(sut2.db(), &cfg, &iv);
-            Refs { d0, d0_x, d0_suffix, d0_x_suffix, steps }
+            Refs { d0, d0_x, d0_suffix, d0_x_suffix, steps, last_log_sync }
         };
         out.count(&format!("x.{xname}"), 1);
         out.count("io_steps_of_x", refs.steps as u64);
@@ -184,7 +187,14 @@ pub fn run_case(seed: u64, k: usize, thorough: bool, only: Option<(usize, usize)
                 out.cell(format!("{xname}:{site}:{op:?}:short{short}:{}", if r.is_ok() { "ok" } else { "err" }));
                 let replay = json!({"engine":"crashmon","property":"C08","seed":seed,"case":k,"thorough":thorough,"step":n,"kind":ki});
                 let mk = |kind: String, summary: String, detail: J| Violation {
-                    signature: format!("C08|{kind}|{xname}@{site}"),
+                    signature: format!(
+                        "C08|{kind}|{xname}@{site}#{}",
+                        match refs.last_log_sync {
+                            Some(p) if n > p => "after-commit-point",
+                            Some(_) => "before-commit-point",
+                            None => "no-log-sync",
+                        }
+                    ),
                     summary,
                     detail,
                     replay: replay.clone(),
@@ -325,7 +335,7 @@ pub fn main(args: &Args) -> Report {
         return rep;
     }
     let thorough = args.thorough();
-    let n_cases = if thorough { 600 } else { 48 };
+    let n_cases = if thorough { 800 } else { 160 };
     let deadline = Instant::now() + Duration::from_secs(args.budget_s(150, 2400));
     let seed = args.seed;
     let (out, done) = par_cases(n_cases, threads(), Some(deadline), |k| run_case(seed, k, thorough, None));
